@@ -272,3 +272,44 @@ func VP_C11_large() {
 	vp.Assert(vp.ExpectPanic(func() { bs.Get(n) }), "out-of-range panics")
 	vp.Cover("end")
 }
+
+// full-size storages on the wire: 4096 values at every width class up to 32
+// bits (256..2048 longs), 256 and 64 values at the widest; a few arbitrary
+// longs, the rest a fixed pattern; fresh and previously used receivers.
+func VP_C11_wire_large() {
+	cfg := vp.Choice(7)
+	bits := []int{4, 15, 16, 17, 21, 32, 32}[cfg]
+	n := []int{4096, 4096, 4096, 4096, 4096, 4096, 256}[cfg]
+	vpl := 64 / bits
+	size := (n + vpl - 1) / vpl
+	vp.SizeBound(16*size + 64)
+	vp.Unwind(size + 64)
+	raw := make([]uint64, size)
+	for k := range raw {
+		raw[k] = uint64(k) * 0x9e3779b97f4a7c15
+		if bits*vpl < 64 {
+			raw[k] &= 1<<uint(bits*vpl) - 1 // padding bits zero
+		}
+	}
+	raw[0], raw[size/2], raw[size-1] = vp.Uint64(), vp.Uint64(), vp.Uint64()
+	src := NewBitStorage(bits, n, raw)
+	var w bytes.Buffer
+	wn, err := src.WriteTo(&w)
+	vp.Assert(err == nil && wn == int64(w.Len()), "WriteTo count")
+	vp.Assert(w.Len() == vpVarLen(size)+8*size, "wire length")
+	w.Write([]byte{0x5a})
+	dst := NewBitStorage(bits, n, nil)
+	if vp.Choice(2) == 1 {
+		dst = NewBitStorage(5, n, nil) // used before with another width (same number of values)
+	}
+	r := bytes.NewReader(w.Bytes())
+	rn, err := dst.ReadFrom(r)
+	vp.Assert(err == nil, "ReadFrom err")
+	vp.Assert(rn == wn && r.Len() == 1, "ReadFrom consumes exactly the encoding")
+	vp.Assert(dst.Fix(bits) == nil, "Fix accepts")
+	vp.Assert(len(dst.Raw()) == size, "raw length")
+	for k := range raw {
+		vp.Assert(dst.Raw()[k] == raw[k], "raw longs survive the wire")
+	}
+	vp.Cover("end")
+}
